@@ -76,6 +76,26 @@ theorem C09_add_used_rejects (s : St) (o : Obj) (refs : List Nat) (h : Inv s)
   · exact hu h1
   · exact h2 x hx hx'
 
+/-- list form of add_objects: the elements in front of the first one with a used id are added, that one is rejected
+    with ValueError and leaves the scenario as it was just before it -/
+theorem C09_add_list_rejects (s s1 : St) (os1 os2 : List Obj) (o : Obj) (refs : List Nat) (h : Inv s)
+    (hpre : step s (.addList os1 refs) = (s1, .ok))
+    (hu : ¬ (objIds o).Nodup ∨ ∃ x ∈ objIds o, x ∈ allIds s1) :
+    step s (.addList (os1 ++ o :: os2) refs) = (s1, .err .value) := by
+  have hi : Inv s1 := fst_of_eq hpre ▸ addList_inv s os1 refs h
+  have hrej : addObj s1 o refs = (s1, .err .value) := by
+    apply addObj_used s1 o refs hi
+    rw [fresh_iff_allIds s1 hi]
+    rintro ⟨h1, h2⟩
+    rcases hu with hu | ⟨x, hx, hx'⟩
+    · exact hu h1
+    · exact h2 x hx hx'
+  show forEach _ s (os1 ++ o :: os2) = _
+  rw [forEach_append]
+  have : forEach (fun s o => addObj s o refs) s os1 = (s1, .ok) := hpre
+  rw [this]
+  show andThen (addObj s1 o refs) _ = _
+  rw [hrej]; rfl
 /-- anything that is not a scenario object: ValueError, nothing changes -/
 theorem C09_add_wrong_type_rejects (s : St) (refs : List Nat) : step s (.add .invalid refs) = (s, .err .value) := rfl
 
